@@ -62,6 +62,7 @@ type RunResult struct {
 	Waits    []WSched    // probe runs: the reconciling deliveries that were sent
 	NReq     int
 	Failures []string // hangs, leaks, unexpected requests (implementation or harness level)
+	Hung     bool     // the watchdog fired: the pipeline may still be running against the store
 	srv      *Server
 	text     string
 }
@@ -242,8 +243,8 @@ func execRun(st *Store, sc Scenario, auto bool) (res RunResult) {
 	_ = late // reported by LateRequests at the end of the session
 	res.srv, res.text = srv, sc.Text()
 	res.Failures = append(res.Failures, cons.anomalies...)
-	res.Failures = append(res.Failures, st.notes...)
-	st.notes = nil
+	res.Failures = append(res.Failures, st.takeNotes()...)
+	res.Hung = !closed
 	return res
 }
 
